@@ -362,10 +362,15 @@ func (a *FuncAn) condFacts(s *State, cond ssa.Value, truth bool) {
 				if _, ok := v.Type().Underlying().(*types.Slice); ok {
 					s.AddEq(a.LenOf(v))
 				}
-				// err == nil after a call: results that are non-nil on success
+				// err == nil after a call: what the callee establishes on its success returns
+				if call, ok := v.(*ssa.Call); ok {
+					s.truth[call] = true
+					a.okFactsOf(s, call, 0)
+				}
 				if ex, ok := v.(*ssa.Extract); ok {
 					if call, ok := ex.Tuple.(*ssa.Call); ok {
 						s.truth[call] = true
+						a.okFactsOf(s, call, ex.Index)
 						for j, nn := range a.E.nonNilOnSuccess(a, call, ex.Index) {
 							if !nn {
 								continue
@@ -424,6 +429,39 @@ func (a *FuncAn) condFacts(s *State, cond ssa.Value, truth bool) {
 			case token.GTR:
 				a.stridedLemma(s, c.Y, c.X)
 			}
+		}
+	}
+}
+
+// okFactsOf adds the success-path facts of every possible callee of call (all callees must agree on the success
+// indicator's position and kind; a fact is added only when every callee establishes it).
+func (a *FuncAn) okFactsOf(s *State, call *ssa.Call, errIdx int) {
+	sums, ok := a.E.joinSummaries(call)
+	if !ok || len(sums) == 0 {
+		return
+	}
+	for _, sm := range sums {
+		if sm.ErrIdx != errIdx || sm.OkBool {
+			return
+		}
+	}
+	for _, pl := range sums[0].OKFacts {
+		all := true
+		for _, sm := range sums[1:] {
+			found := false
+			for _, q := range sm.OKFacts {
+				if pl.equal(q) {
+					found = true
+				}
+			}
+			all = all && found
+		}
+		if !all {
+			continue
+		}
+		if l, ok := a.instantiate(pl, call); ok {
+			s.AddFact(l)
+			delete(a.provers, s)
 		}
 	}
 }
